@@ -1,4 +1,7 @@
 import Mdsort.Proofs.Eval
+import Mdsort.Proofs.EvalAtt
+import Mdsort.Proofs.EvalAttBridge
+import Mdsort.Proofs.EvalAttMeaning
 import Mdsort.Proofs.BlockSelect
 import Mdsort.Proofs.WorldFrame
 
@@ -10,6 +13,8 @@ import Mdsort.Proofs.WorldFrame
 `expr_eval_block`).  `Spec.evalBlock` is the documented reading of mdsort.conf(5) on the
 rule tree the grammar builds (`Spec.parseBlock`).  The valuation of the matchers is whatever
 the environment (regex engine, clock, commands, file system) makes it.
+`Spec.evalBlockA` / `Spec.parseBlockA` (`Spec/RulesAtt.lean`) are the same with `attachment c`
+conditions and `attachment { ... }` action blocks, over the parts of the message.
 -/
 
 namespace Mdsort.Props
@@ -19,14 +24,19 @@ open Mdsort Mdsort.Model
 evaluation is not decided by a pass or action pending from an enclosing block
 (`crosses = false`: the complement is the pinned finding F11), the evaluator returns the
 documented result and, on a match, the documented actions: the same actions other than
-move/flag in the same order, and the same last move-or-flag. -/
+move/flag in the same order, and the same last move-or-flag.
+
+This is the special case "no attachment node in the tree" of `C03_eval_refines_spec_att` below and is
+derived from it (`Proofs/EvalAttBridge.lean`: on such a tree `Spec.parseBlockA` / `Spec.evalBlockA`
+are `Spec.parseBlock` / `Spec.evalBlock` with every action tagged with part 0, `leaks` is never
+recorded and `InDomain` implies `InDomainA`); the direct proof `Proofs.eval_refines_spec` is kept. -/
 theorem C03_eval_refines_spec (env : Env) (root : Msg) (f : MFlags) (e : Expr) (rules : List Spec.Rule)
     (hp : Spec.parseBlock e = some rules) (hd : Proofs.InDomain env e = true)
     (hl : (Spec.evalBlock (Proofs.valuation env root f) Proofs.actionErr rules).crosses = false) :
     let o := Spec.evalBlock (Proofs.valuation env root f) Proofs.actionErr rules
     let r := eval env root e 0 root { ml := [], flags := f }
     r.1 = o.res ∧ (o.res = .match → Spec.planOf (Proofs.mlKeys r.2.ml) = Spec.planOf (o.actions.filterMap Spec.actKey)) :=
-  Proofs.eval_refines_spec env root f e rules hp hd hl
+  Proofs.att_eval_refines_spec_old env root f e rules hp hd hl
 
 /-! ## Non-vacuity
 
@@ -112,6 +122,248 @@ theorem C03_nonvacuous :
   refine ⟨ex_parse, ex_inDomain, hc, h.1, ?_⟩
   rw [h.2 trivial]
   decide
+
+/-! ## Attachment conditions and attachment blocks
+
+`Spec/RulesAtt.lean` extends the documented semantics: `attachment c` quantifies over the parts of
+the message (in order, three-valued, a malformed multipart is an error), and `attachment { ... }` is
+an action of its rule that evaluates its rules on EVERY part - each part a message of its own -,
+adds what they collect, tagged with the part index, to the actions of the rule, and lets the rule
+match iff the block matched on at least one part.  The specification is told the parts of every
+message and the value of every matcher on every (part index, message) (`Spec.PartCtx`); the theorem
+instantiates it with `message_get_attachments` and the matchers evaluated on their own. -/
+
+/-- For every environment, message and rule tree in the domain `InDomainA` (attachment conditions
+anywhere, attachment blocks with `exec` actions, nested blocks and attachment conditions inside),
+whenever the documented evaluation records none of the two known deviations
+
+* `crosses` - the pinned finding F11, which for an attachment block reads: its block is evaluated
+  on a part while a `pass` is pending (`expr_eval_block` then consumes the PASS entry of the
+  enclosing block and reports a match whenever any action is pending),
+* `leaks` - a rule stops at an attachment block that matched on no part after it has already
+  collected actions (they stay in the match list although the rule did not match),
+
+the evaluator returns the documented result and, on a match, the documented actions: the same
+(type, line, part) other than move/flag in the same order, and the same last move-or-flag. -/
+theorem C03_eval_refines_spec_att (env : Env) (root : Msg) (f : MFlags) (e : Expr) (rules : List Spec.RuleA)
+    (hp : Spec.parseBlockA e = some rules) (hd : Proofs.InDomainA env e = true)
+    (hc : (Spec.evalBlockA (Proofs.partCtx env root f) Proofs.actionErr root rules).crosses = false)
+    (hl : (Spec.evalBlockA (Proofs.partCtx env root f) Proofs.actionErr root rules).leaks = false) :
+    let o := Spec.evalBlockA (Proofs.partCtx env root f) Proofs.actionErr root rules
+    let r := eval env root e 0 root { ml := [], flags := f }
+    r.1 = o.res ∧
+      (o.res = .match → Spec.planP (Proofs.mlKeysP r.2.ml) = Spec.planP (o.actions.filterMap Spec.actKeyP)) :=
+  Proofs.att_eval_refines_spec env root f e rules hp hd hc hl
+
+/-! ### Non-vacuity: a message with two parts
+
+```
+match attachment body /2/ and ! attachment body /3/
+    attachment { match body /2/ exec "c"
+                 match all { match ! attachment all exec stdin body "d" } }
+    label "l" pass
+match all move "/d"
+```
+on `multipart/mixed` with the parts `ab` and `cd`; `/1/` matches everything, `/2/` what contains
+`c`, `/3/` nothing.  The condition holds (part 2), the block matches on both parts (second rule on
+part 1, first rule on part 2), the label and the move follow. -/
+
+def exEnvA : Env where
+  rx := fun p s => if p.src == [49] then .ok [some (0, 0)]
+    else if p.src == [50] && s.contains 99 then .ok [some (0, 0)] else .nomatch
+  command := fun _ => 0
+  isDir := fun _ => false
+  now := 0
+  strptime := fun _ => none
+  zoneName := fun _ => none
+  fileTime := fun _ => none
+  dryrun := false
+  path := [47, 109, 47, 110, 101, 119, 47, 49]
+
+def exMsgA : Msg :=
+  parseMessage (ofString "Content-Type: multipart/mixed; boundary=\"B\"\n\n--B\n\nab\n--B\n\ncd\n--B--\n")
+
+def exP1 : Msg := { headers := [], body := [97, 98, 10] }
+def exP2 : Msg := { headers := [], body := [99, 100, 10] }
+
+theorem exA_parts : getAttachments exMsgA = some [exP1, exP2] := by decide +kernel
+
+def exTreeA : Expr :=
+  .block 1 (.or 1
+    (.mtch 2 (.and 2 (.attachment 2 (.body 2 { src := [50] })) (.neg 2 (.attachment 2 (.body 2 { src := [51] }))))
+      (.and 2 (.and 2
+        (.attBlock 2 (.block 2 (.or 2
+          (.mtch 3 (.body 3 { src := [50] }) (.exec 3 false false [[99]]))
+          (.mtch 4 (.all 4) (.block 4 (.mtch 5 (.neg 5 (.attachment 5 (.all 5))) (.exec 5 true true [[100]])))))))
+        (.label 6 [[108]])) (.pass 6)))
+    (.mtch 7 (.all 7) (.move 7 [47, 100])))
+
+def exRulesA : List Spec.RuleA :=
+  [.acts 2 (.and 2 (.attachment 2 (.body 2 { src := [50] })) (.neg 2 (.attachment 2 (.body 2 { src := [51] }))))
+     [.att 2
+        [.acts 3 (.body 3 { src := [50] }) [.plain (.exec 3 false false [[99]])] .none,
+         .blk 4 (.all 4) [.acts 5 (.neg 5 (.attachment 5 (.all 5))) [.plain (.exec 5 true true [[100]])] .none]],
+      .plain (.label 6 [[108]])] .pass,
+   .acts 7 (.all 7) [.plain (.move 7 [47, 100])] .none]
+
+theorem exA_parse : Spec.parseBlockA exTreeA = some exRulesA := by
+  simp [exTreeA, exRulesA, Spec.parseBlockA, Spec.parseRulesA, Spec.parseRuleA, Spec.parseChainA, Spec.parseActA,
+    Spec.isCond, Spec.isCtlExpr, Spec.isActionExpr]
+
+theorem exA_inDomain : Proofs.InDomainA exEnvA exTreeA = true := by decide +kernel
+
+abbrev exCtxA := Proofs.partCtx exEnvA exMsgA MFlags.empty
+
+theorem exA_parts_root : exCtxA.parts exMsgA = some [exP1, exP2] := exA_parts
+theorem exA_parts_p1 : exCtxA.parts exP1 = some [] := by
+  show getAttachments exP1 = _; decide +kernel
+theorem exA_parts_p2 : exCtxA.parts exP2 = some [] := by
+  show getAttachments exP2 = _; decide +kernel
+theorem exA_v_all (k l : Nat) (m : Msg) : exCtxA.v k m (.all l) = .match := by
+  simp only [exCtxA, Proofs.partCtx, eval]
+/-- `/2/` matches the second part only, `/3/` no part (at the lines where the examples use them). -/
+theorem exA_v_body :
+    exCtxA.v 1 exP1 (.body 2 { src := [50] }) = .nomatch ∧ exCtxA.v 2 exP2 (.body 2 { src := [50] }) = .match ∧
+    exCtxA.v 1 exP1 (.body 3 { src := [50] }) = .nomatch ∧ exCtxA.v 2 exP2 (.body 3 { src := [50] }) = .match ∧
+    exCtxA.v 1 exP1 (.body 2 { src := [51] }) = .nomatch ∧ exCtxA.v 2 exP2 (.body 2 { src := [51] }) = .nomatch ∧
+    exCtxA.v 1 exP1 (.body 4 { src := [51] }) = .nomatch ∧ exCtxA.v 2 exP2 (.body 4 { src := [51] }) = .nomatch := by
+  simp only [exCtxA, Proofs.partCtx, eval]
+  decide +kernel
+
+/-- The documented outcome: a match; the exec of the second rule on part 1, of the first rule on
+part 2, then the label and the move of the message itself; no deviation recorded. -/
+theorem exA_outcome : Spec.evalBlockA exCtxA Proofs.actionErr exMsgA exRulesA =
+    { res := .match,
+      actions := [(1, .exec 5 true true [[100]]), (2, .exec 3 false false [[99]]), (0, .label 6 [[108]]),
+        (0, .move 7 [47, 100])],
+      crosses := false, leaks := false } := by
+  simp [exRulesA, Spec.evalBlockA, Spec.evalRulesA, Spec.evalActsA, Spec.forParts, Spec.condValA, Spec.anyPart,
+    Spec.partIndex, exA_parts_root, exA_parts_p1, exA_v_all, exA_v_body,
+    Proofs.actionErr, PATH_MAX]
+
+/-- The hypotheses of `C03_eval_refines_spec_att` are satisfiable on a two-part message with a
+match, and the theorem then pins the evaluator's result and plan, part indices included. -/
+theorem C03_att_nonvacuous :
+    Spec.parseBlockA exTreeA = some exRulesA ∧ Proofs.InDomainA exEnvA exTreeA = true ∧
+    (Spec.evalBlockA exCtxA Proofs.actionErr exMsgA exRulesA).crosses = false ∧
+    (Spec.evalBlockA exCtxA Proofs.actionErr exMsgA exRulesA).leaks = false ∧
+    (eval exEnvA exMsgA exTreeA 0 exMsgA { ml := [], flags := MFlags.empty }).1 = .match ∧
+    Spec.planP (Proofs.mlKeysP (eval exEnvA exMsgA exTreeA 0 exMsgA { ml := [], flags := MFlags.empty }).2.ml) =
+      ([(.exec, 5, 1), (.exec, 3, 2), (.label, 6, 0)], some (.move, 7, 0)) := by
+  have hc : (Spec.evalBlockA exCtxA Proofs.actionErr exMsgA exRulesA).crosses = false := by rw [exA_outcome]
+  have hl : (Spec.evalBlockA exCtxA Proofs.actionErr exMsgA exRulesA).leaks = false := by rw [exA_outcome]
+  have h := C03_eval_refines_spec_att exEnvA exMsgA MFlags.empty exTreeA exRulesA exA_parse exA_inDomain hc hl
+  simp only [exA_outcome] at h
+  refine ⟨exA_parse, exA_inDomain, hc, hl, h.1, ?_⟩
+  rw [h.2 trivial]
+  decide
+
+/-- What the specification says about `attachment c` (for every context, no hypothesis on `c`):
+an error if the parts of the message cannot be had; otherwise the value of `c` on the first part
+on which it is not *no match* - a match, or an evaluation error, with *no match* on every earlier
+part -, and *no match* iff `c` holds on no part.  Part `i` of the message itself is evaluated as
+part `i + 1`, a part of a part under the index of that part (`Spec.partIndex`). -/
+theorem C03_attachment_cond_meaning {α : Type} (cx : Spec.PartCtx α) (l : Nat) (c : Expr) (k : Nat) (m : α) :
+    (cx.parts m = none → Spec.condValA cx (.attachment l c) k m = .error) ∧
+    (∀ ps, cx.parts m = some ps →
+      (∀ t, t ≠ .nomatch → (Spec.condValA cx (.attachment l c) k m = t ↔
+        ∃ i q, ps[i]? = some q ∧ Spec.condValA cx c (Spec.partIndex k i) q = t ∧
+          ∀ j < i, ∀ q', ps[j]? = some q' → Spec.condValA cx c (Spec.partIndex k j) q' = .nomatch)) ∧
+      (Spec.condValA cx (.attachment l c) k m = .nomatch ↔
+        ∀ i q, ps[i]? = some q → Spec.condValA cx c (Spec.partIndex k i) q = .nomatch)) :=
+  Proofs.att_attachment_cond_meaning cx l c k m
+
+/-- On the two-part message: `attachment body /2/` holds (second part), `attachment body /3/` does not. -/
+example :
+    exCtxA.parts exMsgA = some [exP1, exP2] ∧
+    Spec.condValA exCtxA (.attachment 2 (.body 2 { src := [50] })) 0 exMsgA = .match ∧
+    Spec.condValA exCtxA (.attachment 2 (.body 2 { src := [51] })) 0 exMsgA = .nomatch := by
+  simp [Spec.condValA, Spec.anyPart, Spec.partIndex, exA_parts_root, exA_v_body]
+
+/-! ### The two deviations are real (each hypothesis is needed)
+
+Same message.  (1) `crosses`: a `pass` is pending when the attachment block is evaluated; its
+block matches on no part, but `expr_eval_block` finds the PASS entry of the root block, removes
+it and reports a match because the label is pending: the third rule is never tried.
+
+```
+match all label "x" pass
+match all attachment { match body /3/ exec "c" }
+match all move "/d"
+```
+(2) `leaks`: the first rule stops at its attachment block (no part matches) after collecting the
+label, which stays in the match list and is executed with the second rule.
+
+```
+match all label "x" attachment { match body /3/ exec "c" }
+match all move "/d"
+```
+Both were run on the real binary (mdsort 11.5.1 with the repairs of 9.2): (1) labels the message and
+leaves it where it is, (2) moves it with the label. -/
+
+def exTreeCross : Expr :=
+  .block 1 (.or 1 (.or 1
+    (.mtch 2 (.all 2) (.and 2 (.label 2 [[120]]) (.pass 2)))
+    (.mtch 3 (.all 3) (.attBlock 3 (.block 3 (.mtch 4 (.body 4 { src := [51] }) (.exec 4 false false [[99]]))))))
+    (.mtch 5 (.all 5) (.move 5 [47, 100])))
+
+def exRulesCross : List Spec.RuleA :=
+  [.acts 2 (.all 2) [.plain (.label 2 [[120]])] .pass,
+   .acts 3 (.all 3) [.att 3 [.acts 4 (.body 4 { src := [51] }) [.plain (.exec 4 false false [[99]])] .none]] .none,
+   .acts 5 (.all 5) [.plain (.move 5 [47, 100])] .none]
+
+theorem exCross_model :
+    (eval exEnvA exMsgA exTreeCross 0 exMsgA { ml := [], flags := MFlags.empty }).1 = .match ∧
+    Proofs.mlKeysP (eval exEnvA exMsgA exTreeCross 0 exMsgA { ml := [], flags := MFlags.empty }).2.ml =
+      [(.label, 2, 0)] := by
+  simp only [exTreeCross, eval, exA_parts, eval.loopB]
+  decide +kernel
+
+/-- Without `crosses = false` the statement fails: documented = label and move, evaluator = label. -/
+theorem C03_att_crosses_needed :
+    Spec.parseBlockA exTreeCross = some exRulesCross ∧ Proofs.InDomainA exEnvA exTreeCross = true ∧
+    Spec.evalBlockA exCtxA Proofs.actionErr exMsgA exRulesCross =
+      { res := .match, actions := [(0, .label 2 [[120]]), (0, .move 5 [47, 100])], crosses := true, leaks := false } ∧
+    (eval exEnvA exMsgA exTreeCross 0 exMsgA { ml := [], flags := MFlags.empty }).1 = .match ∧
+    Proofs.mlKeysP (eval exEnvA exMsgA exTreeCross 0 exMsgA { ml := [], flags := MFlags.empty }).2.ml =
+      [(.label, 2, 0)] := by
+  refine ⟨?_, by decide +kernel, ?_, exCross_model.1, exCross_model.2⟩
+  · simp [exTreeCross, exRulesCross, Spec.parseBlockA, Spec.parseRulesA, Spec.parseRuleA, Spec.parseChainA,
+      Spec.parseActA, Spec.isCond, Spec.isCtlExpr, Spec.isActionExpr]
+  · simp [exRulesCross, Spec.evalBlockA, Spec.evalRulesA, Spec.evalActsA, Spec.forParts, Spec.condValA,
+      Spec.partIndex, exA_parts_root, exA_v_all, exA_v_body, Proofs.actionErr, PATH_MAX]
+
+def exTreeLeak : Expr :=
+  .block 1 (.or 1
+    (.mtch 2 (.all 2) (.and 2 (.label 2 [[120]])
+      (.attBlock 3 (.block 3 (.mtch 4 (.body 4 { src := [51] }) (.exec 4 false false [[99]]))))))
+    (.mtch 5 (.all 5) (.move 5 [47, 100])))
+
+def exRulesLeak : List Spec.RuleA :=
+  [.acts 2 (.all 2) [.plain (.label 2 [[120]]),
+     .att 3 [.acts 4 (.body 4 { src := [51] }) [.plain (.exec 4 false false [[99]])] .none]] .none,
+   .acts 5 (.all 5) [.plain (.move 5 [47, 100])] .none]
+
+theorem exLeak_model :
+    (eval exEnvA exMsgA exTreeLeak 0 exMsgA { ml := [], flags := MFlags.empty }).1 = .match ∧
+    Proofs.mlKeysP (eval exEnvA exMsgA exTreeLeak 0 exMsgA { ml := [], flags := MFlags.empty }).2.ml =
+      [(.label, 2, 0), (.move, 5, 0)] := by
+  simp only [exTreeLeak, eval, exA_parts, eval.loopB]
+  decide +kernel
+
+/-- Without `leaks = false` the statement fails: documented = move, evaluator = label and move. -/
+theorem C03_att_leaks_needed :
+    Spec.parseBlockA exTreeLeak = some exRulesLeak ∧ Proofs.InDomainA exEnvA exTreeLeak = true ∧
+    Spec.evalBlockA exCtxA Proofs.actionErr exMsgA exRulesLeak =
+      { res := .match, actions := [(0, .move 5 [47, 100])], crosses := false, leaks := true } ∧
+    (eval exEnvA exMsgA exTreeLeak 0 exMsgA { ml := [], flags := MFlags.empty }).1 = .match ∧
+    Proofs.mlKeysP (eval exEnvA exMsgA exTreeLeak 0 exMsgA { ml := [], flags := MFlags.empty }).2.ml =
+      [(.label, 2, 0), (.move, 5, 0)] := by
+  refine ⟨?_, by decide +kernel, ?_, exLeak_model.1, exLeak_model.2⟩
+  · simp [exTreeLeak, exRulesLeak, Spec.parseBlockA, Spec.parseRulesA, Spec.parseRuleA, Spec.parseChainA,
+      Spec.parseActA, Spec.isCond, Spec.isCtlExpr, Spec.isActionExpr]
+  · simp [exRulesLeak, Spec.evalBlockA, Spec.evalRulesA, Spec.evalActsA, Spec.forParts, Spec.condValA,
+      Spec.partIndex, exA_parts_root, exA_v_all, exA_v_body, Proofs.actionErr, PATH_MAX]
 
 /-- `old` is inside the domain as long as no `flags` action of the tree sets `S`
 (`match old flags "T" move "/x"`). -/
